@@ -13,7 +13,9 @@ META = dict(
          "and one body piece, stream: a generator without a length yielding several pieces (one of them empty), empty: no length "
          "and an empty iterable}; all 3 + 9 + 27 kind sequences, plus 18 sequences with the "
          "body-less statuses 204 / 304 answered without Content-Length (alone and every pair with any kind, GET; thorough also "
-         "with POST and (k, 204|304, k) triples). Schedule: the driver alternates Patron.serviceAll / "
+         "with POST and (k, 204|304, k) triples), plus keep-alive sequences that switch between HEAD and GET / POST (HEAD; "
+         "HEAD,HEAD; HEAD,GET; GET,HEAD; HEAD,POST; POST,HEAD with every kind for the non-HEAD request; thorough also "
+         "HEAD,GET,HEAD and GET,HEAD,GET) - the app answers HEAD with the headers of the fixed response and no body. Schedule: the driver alternates Patron.serviceAll / "
          "Valet.serviceAll; servicing the same side again costs one deviation; every recv on either side may return 1 byte, half, "
          "or all but one byte of what is waiting instead of everything (one deviation each); every request may reach the server "
          "in two pieces with a server pass in between - the client socket accepts it only up to a cut inside the request line, "
@@ -37,6 +39,12 @@ PORT = 8080
 KINDS = ("fixed", "stream", "empty")
 BODILESS = {"204": "204 No Content", "304": "304 Not Modified"}      # answered without Content-Length, no body
 DATE = "Thu, 01 Jan 2026 00:00:00 GMT"
+
+
+def methods_of(method, n):
+    """'GET' / 'POST' = every request; 'HEAD+GET' = one method per request."""
+    ms = method.split("+")
+    return ms if len(ms) == n and ("+" in method or n == 1) else [method] * n
 
 
 def bound_for(mode, method, n):
@@ -70,6 +78,10 @@ def make_app(calls):
         reqbody = environ["wsgi.input"].read()
         calls.append((environ["REQUEST_METHOD"], path, bytes(reqbody)))
         tag = tag.encode()
+        if method == b"HEAD":         # the headers a GET would get, no body
+            body = expected_body("fixed", b"GET", tag, reqbody)
+            start("200 OK", [("Content-Type", "text/plain"), ("Date", DATE), ("Content-Length", str(len(body)))])
+            return []
         if kind == "fixed":
             body = expected_body(kind, method, tag, reqbody)
             start("200 OK", [("Content-Type", "text/plain"), ("Date", DATE), ("Content-Length", str(len(body)))])
@@ -93,17 +105,22 @@ def make_app(calls):
 
 def plan(kinds, method):
     out = []
+    ms = methods_of(method, len(kinds))
     for i, k in enumerate(kinds):
         path = "/%s/t%d" % (k, i)
-        body = (b"b%d" % i) if method == "POST" else b""
-        out.append(dict(i=i, kind=k, path=path, body=body, status=int(k) if k in BODILESS else 200,
-                        expect=expected_body(k, method.encode(), b"t%d" % i, body)))
+        body = (b"b%d" % i) if ms[i] == "POST" else b""
+        out.append(dict(i=i, kind=k, path=path, body=body, method=ms[i], status=int(k) if k in BODILESS else 200,
+                        expect=b"" if ms[i] == "HEAD" else expected_body(k, ms[i].encode(), b"t%d" % i, body)))
     return out
+
+
+def head_only(reqs):
+    return [rq["i"] for rq in reqs if rq["method"] == "HEAD"]
 
 
 def wire_verdict(sent, reqs):
     """Judge the server->client byte stream. -> list of (kind, what)."""
-    rsps, left, problem = hh.parse_responses(sent)
+    rsps, left, problem = hh.parse_responses(sent, head_only(reqs))
     out = []
     if problem == "undelimited":
         out.append(("undelimited-response",
@@ -197,7 +214,7 @@ def execute(ch, mode, kinds, method, part, states):
         burst = b""
         points = []
         for rq in reqs:
-            head = "%s %s HTTP/1.1\r\nHost: 127.0.0.1:%d\r\n" % (method, rq["path"], PORT)
+            head = "%s %s HTTP/1.1\r\nHost: 127.0.0.1:%d\r\n" % (rq["method"], rq["path"], PORT)
             if rq["body"]:
                 head += "Content-Length: %d\r\n" % len(rq["body"])
             one = head.encode() + b"\r\n" + rq["body"]
@@ -229,7 +246,7 @@ def execute(ch, mode, kinds, method, part, states):
             states.add(hash(snap("S")))
             sched.append("S")
             ss = server_sock()
-            if done_at is None and ss and len(hh.parse_responses(ss[0].sent)[0]) >= N:
+            if done_at is None and ss and len(hh.parse_responses(ss[0].sent, head_only(reqs))[0]) >= N:
                 done_at = step
             if done_at is not None and step >= done_at + 2:
                 break
@@ -248,7 +265,7 @@ def execute(ch, mode, kinds, method, part, states):
         patron.connector.cs.menu = net.Menu(recv_split=True, send_partial=True)
         policy.current_request = lambda: bytes(patron.requester.msg)
         for rq in reqs:
-            patron.request(method=method, path=rq["path"], body=rq["body"], rid=rq["i"])
+            patron.request(method=rq["method"], path=rq["path"], body=rq["body"], rid=rq["i"])
         delivered = []          # body bytes of response i at the moment it was first seen in .responses
         expected_side = "C"
         done_at = None
@@ -320,7 +337,7 @@ def execute(ch, mode, kinds, method, part, states):
                     or len([s for s in fn.sockets if "<" not in s.name]) != 2:
                 viol.append(("connection-closed", "the keep-alive connection did not survive: cutoff=%s connected=%s ixes=%d "
                              "sockets=%d" % (conn.cutoff, conn.connected, len(valet.servant.ixes), len(fn.sockets))))
-    want = [(method, rq["path"], rq["body"]) for rq in reqs]
+    want = [(rq["method"], rq["path"], rq["body"]) for rq in reqs]
     if not viol and calls != want:
         viol.append(("app-calls", "the WSGI app was called with %r, expected %r" % (calls, want)))
     return viol, sched, fn
@@ -350,7 +367,7 @@ def work(cfg):
         p.evaluations += 1
         if not viol:
             ss = [s for s in fn.sockets if "<" in s.name]
-            fr = [r["framing"] for r in hh.parse_responses(ss[0].sent)[0]] if ss else []
+            fr = [r["framing"] for r in hh.parse_responses(ss[0].sent, head_only(plan(kinds, method)))[0]] if ss else []
             p.outcome("%s ok, framing on the wire: %s" % (mode, ",".join(fr)))
         for kind, what in viol:
             group = "%s|%s" % (mode, kind)
@@ -401,6 +418,15 @@ def configs():
     if core.TIER == "thorough":
         seqs += [(k, b, k) for b in BODILESS for k in KINDS]
     seqs.sort(key=len)
+    # HEAD mixed with GET / POST on the keep-alive connection: the method changes to and from HEAD
+    heads = [("HEAD", ("fixed",)), ("HEAD+HEAD", ("fixed", "fixed"))]
+    for k in KINDS:
+        heads += [("HEAD+GET", ("fixed", k)), ("GET+HEAD", (k, "fixed")), ("HEAD+POST", ("fixed", k)), ("POST+HEAD", (k, "fixed"))]
+    if core.TIER == "thorough":
+        for k in KINDS:
+            heads.append(("HEAD+GET+HEAD", ("fixed", k, "fixed")))
+            for k2 in KINDS:
+                heads.append(("GET+HEAD+GET", (k, "fixed", k2)))
     cfgs = []
     for mode in ("patron", "burst"):
         for method in ("GET", "POST"):
@@ -410,6 +436,8 @@ def configs():
                     b = None            # body-less statuses with POST: thorough only
                 if b is not None:
                     cfgs.append((len(cfgs), mode, method, kinds, b))
+        for method, kinds in heads:
+            cfgs.append((len(cfgs), mode, method, kinds, bound_for(mode, "GET", len(kinds))))
     return cfgs
 
 
@@ -423,7 +451,7 @@ def run():
     for c in cfgs:
         bounds["%s %s N=%d" % (c[1], c[2], len(c[3]))] = c[4]
     ck.coverage_extra = dict(deviation_bound=bounds, kind_sequences=len(set(c[3] for c in cfgs)), modes=["patron", "burst"],
-                             methods=["GET", "POST"], configurations=len(cfgs), liveness_window_calls_per_request=STEPS_PER_REQ)
+                             methods=["GET", "POST", "HEAD mixed with GET / POST"], configurations=len(cfgs), liveness_window_calls_per_request=STEPS_PER_REQ)
     ck.assumptions = [
         "socket doubles (mc/net.py) instead of loopback sockets; sends are accepted whole, a recv returns everything waiting or "
         "one of three shorter prefixes (1 byte, half, all but one)",
